@@ -120,7 +120,9 @@ func (lc c02Layers) options() []ucfg.Option {
 }
 
 func c02Exprs(depth2 bool, full bool) []vx.Exp {
-	atoms := []vx.Exp{vx.Lit("x"), vx.Lit("p$q"), vx.Lit("a}b"), vx.Lit("c:d")}
+	// (literals with an escape at the end, alone and doubled: the character after an escape is
+	// then a '$', a ':' or a '}' with a meaning of its own)
+	atoms := []vx.Exp{vx.Lit("x"), vx.Lit("p$q"), vx.Lit("a}b"), vx.Lit("c:d"), vx.Lit("q$"), vx.Lit("$"), vx.Lit("$}z")}
 	var refs []vx.Exp
 	for _, n := range c02Names {
 		refs = append(refs, vx.Ref{Name: vx.Lit(n)})
